@@ -255,7 +255,7 @@ static void run_backend(mon::Rng& rng)
     Ctx<B>::sym[0] = be::BT<B>::symbol(a, "run_node");
     Ctx<B>::sym[1] = be::BT<B>::symbol(b, "run_node");
     void* key[2] = { reinterpret_cast<void*>(&the_cb<B, 0>), reinterpret_cast<void*>(&the_cb<B, 1>) };
-    int trees = mon::tier(40, 600);
+    int trees = mon::tier(40, 3000);
     for (int t = 0; t < trees; t++) {
       g_inv.clear(); g_cb.clear();
       int budget = 14;
